@@ -91,7 +91,9 @@ def gen_case(rng, tier):
     return {"kind": kind, "mdim": mdim, "n": n, "batch": batch, "sel": sel, "rule": rule, "rule_type": rule_type, "ranker": ranker,
             "x0": [dy(rng) for _ in range(n)],
             "init_elites": [[[dy(rng) for _ in range(n)], dy(rng), [dy(rng, -1, 1, 4) for _ in range(mdim)]] for _ in range(n_init)],
-            "batch_arg": rng.random() < 0.8, "rounds": rounds}
+            "batch_arg": rng.random() < 0.8, "rounds": rounds,
+            # emitter bounds narrower than where elites lie (a shared archive, direct adds): the restart point must still be an elite's solution
+            "bounds": rng.choice([None, None, 0.25, 1.0])}
 
 
 class Labels:
@@ -177,6 +179,8 @@ def run_impl(case):
     x0 = np.array(case["x0"], dtype=float)
     kw = dict(x0=x0, sigma0=0.5, ranker=rk, es=es, selection_rule=case["sel"], restart_rule=rule_value(case),
               batch_size=B if case["batch_arg"] else None)
+    if case.get("bounds") is not None and kind == "ESE":      # GradientArborescenceEmitter rejects bounds by design
+        kw["bounds"] = [(-case["bounds"], case["bounds"])] * n
     del log[:]
     try:
         if kind == "ESE":
@@ -428,7 +432,8 @@ def check(rep, tier, seed, driver):
                 "scripted ranker returning arbitrary permutations with 1-D or 2-D values) x histories of 1..30 ask/tell rounds with "
                 "synthetic feedback (all / some / none inserted, statuses 1 and 2 mixed) or the real archive.add feedback, random stop "
                 "signals, elites added between rounds, archive mostly non-empty; a history is non-trivial when it has >= 3 rounds and "
-                "contains both a restarting and a non-restarting tell; distinct by hash of the case")
+                "contains both a restarting and a non-restarting tell; distinct by hash of the case" 
+                "; plus: emitter bounds narrower than where the archive's elites lie")
     cases = []
     cdir = os.path.join(CORPUS, "C10")
     if os.path.isdir(cdir):
